@@ -160,6 +160,33 @@ pub fn faults_for(frame_len: usize, plan: &SweepPlan, r: &mut Rng, counts: &mut 
             out.push(("flip_odd", v));
         }
         counts.flip_odd += plan.odd_sampled as u64;
+        // large odd counts, up to "every allowed bit" (or all but one when that count is even)
+        let max_odd = if allowed.len() % 2 == 1 { allowed.len() } else { allowed.len() - 1 };
+        let mut ks: Vec<usize> = vec![max_odd];
+        for _ in 0..(plan.odd_sampled / 20).max(2) {
+            let k = 35 + 2 * r.below(((max_odd.saturating_sub(35)) / 2 + 1) as u64) as usize;
+            if k <= max_odd {
+                ks.push(k);
+            }
+        }
+        for k in ks {
+            if k < 3 {
+                continue;
+            }
+            // choose which bits stay unflipped (cheaper than choosing k of n when k is large)
+            let mut keep = vec![true; allowed.len()];
+            let mut drop = allowed.len() - k;
+            while drop > 0 {
+                let i = r.usize_below(allowed.len());
+                if keep[i] {
+                    keep[i] = false;
+                    drop -= 1;
+                }
+            }
+            let v: Vec<u32> = allowed.iter().zip(keep.iter()).filter(|(_, k)| **k).map(|(b, _)| *b).collect();
+            out.push(("flip_odd", v));
+            counts.flip_odd += 1;
+        }
     }
     // bursts: span 2..=24 x start x {all-ones interior, random interior}
     let mut burst = |lo: usize, hi: usize, r: &mut Rng, all_starts: bool, out: &mut Vec<(&'static str, Vec<u32>)>, counts: &mut SweepCounts| {
